@@ -255,7 +255,8 @@ Section Model.
     | OList c => (RNames (list_coll (s_files (r_st r)) c), [], r)
     | OUpload obj c h f d =>
         (* upload.py 64-70: history, then uploaded_item = self._get(href, verify_href=False) *)
-        exec_get g lk (mkRst (upload_write g (r_st r) c h f d) (r_cleaned r)) obj c h
+        let '(a, evs, r') := exec_get g lk (mkRst (upload_write g (r_st r) c h f d) (r_cleaned r)) obj c h in
+        (a, EvStore (key_of g f) :: evs, r')
     | OCreate c items => (RDone, [], mkRst (create_collection g (r_st r) c items) (r_cleaned r))
     | OMove c h c2 h2 => match move_item g (r_st r) c h c2 h2 with
                          | Some s' => (RDone, [], mkRst s' (r_cleaned r))
